@@ -14,3 +14,10 @@ package jsonpath
 //@   ensures json: isjson(result)
 //@   ensures lists: isAList(result) ==> slen(alist(result)) >= 0 && soff(alist(result)) >= 0
 //@   ensures elems: isAList(result) ==> (forall j :: 0 <= j && j < slen(alist(result)) ==> isjson(anyat(alist(result), j)))
+
+// GetJSONPath maps a field reference to the JSONPath it denotes; named by the spec
+// function jpath. TRUSTED here (string manipulation through strings.Split/Join).
+//@ func GetJSONPath
+//@   trusted
+//@   pure
+//@   ensures def: result == jpath(path)
